@@ -13,7 +13,7 @@ import shutil
 from vlib import core
 
 THEOREMS = ["C05_merge_keys", "C05_select", "C05_conflicts", "C05_unused", "C05_spec", "C05_cross", "C05_cross_pass1", "C05_select_forms",
-            "C05_old_refuted", "C05_lone_other_refuted"]
+            "C05_old_refuted", "C05_lone_other_refuted", "C05_panic_old_refuted"]
 PROPS = "theories/Props/C05.v"
 REGISTRY = {
     "level": "proof",
@@ -28,8 +28,8 @@ REGISTRY = {
     "note": "Partial (theorems complete, no axioms): CLDR data itself is an oracle (ICU4X compiled data), independently "
             "re-stated for en fr ru ar pl ja cy he only; generated accessors are observed through one fixed compiled project. "
             "merge_plurals' recursion into sub-keys is not modelled (levels are checked one by one); the cross-locale pass is "
-            "modelled at top level only. Panics on base keys that are not Rust identifiers (`in_one`/`in_other`) are counted as "
-            "outside the domain (C09).",
+            "modelled at top level only. A plural whose base key is not a Rust identifier (`in_one`/`in_other`) must be an InvalidKey "
+            "error; a panic there is reported as a violation.",
     "engine": "coq",
     "packages": [("h_plurals",)],
 }
@@ -43,7 +43,7 @@ FORMS = ["zero", "one", "two", "few", "many", "other"]
 COQ_FORM = {"zero": "Zero", "one": "One", "two": "Two", "few": "Few", "many": "Many", "other": "Other"}
 COQ_RULE = {"cardinal": "Cardinal", "ordinal": "Ordinal"}
 BASES = ["a", "b", "a_b", "item", "a_one", "a_ordinal", "ordinal", "a-b", "a_", "x9", "A", "a_other", "b_two"]
-BAD_BASES = ["", "_", "in", "type"]           # Key::new(base) is None: merge_plurals panics there (C09's subject)
+BAD_BASES = ["", "_", "in", "type"]           # Key::new(base) is None: the plural they declare is an InvalidKey error
 NORMALS = ["k", "title", "a", "b", "item", "one", "other", "a_one", "x_foo", "a_ordinal", "a_other", "a_b", "a_One",
            "ordinal_one", "a_ordinal_x", "b_two", "a_one_other", "zz"]
 
@@ -82,7 +82,7 @@ def gen_value(rng, ids, depth, allow_sub):
 
 def gen_level(rng, ids, depth, bad_ok=True):
     lvl = {}
-    pool = BASES + (BAD_BASES if bad_ok and rng.random() < 0.04 else [])
+    pool = BASES + (BAD_BASES if bad_ok and rng.random() < 0.08 else [])
     for base in rng.sample(pool, rng.choice([1, 1, 2, 2, 3])):
         m = rng.random()
         rules = ["cardinal"] if m < 0.55 else ["ordinal"] if m < 0.87 else ["cardinal", "ordinal"]
@@ -142,7 +142,10 @@ def corpus_levels():
         {"x_zero": L(1), "x_one": L(2), "x_two": L(3), "x_few": L(4), "x_many": L(5), "x_other": L(6)},
         {"x_ordinal_zero": L(1), "x_ordinal_few": L(4), "x_ordinal_other": L(6), "k": ("sub", 9, {"y_one": L(7), "y_other": L(8)})},
         {"x_one": ("ranges", 1), "x_other": L(2), "x_two": L(3)},   # a range table is never a plural form
-        {"in_one": L(1), "in_other": L(2)},                          # base key `in` is a keyword: panic (C09)
+        {"in_one": L(1), "in_other": L(2)},                          # base key `in` is a keyword: InvalidKey("in")
+        {"_one": L(1), "_other": L(2), "k": L(3)},                   # empty base key
+        {"type_ordinal_two": L(1), "type_ordinal_other": L(2)},
+        {"in_one": L(1), "k": ("sub", 9, {"in_one": L(2), "in_other": L(3)})},   # the faulty group is in the nested level
     ]
 
 
@@ -210,8 +213,12 @@ def level_cases(loc, cats, src, raw, out, warns, impl_err, impl_panic, path, acc
     keys = core.coq_list(["(%s, %s)" % (core.coq_str(n), coq_ival(src[n])) for n in names])
     if impl_panic:
         impl = "(Some RPanic)"
+    elif impl_err is not None and impl_err["kind"] == "InvalidKey":
+        # InvalidKey(base) carries no key path: offered to every level that has this base key; `check` answers 5 where the
+        # base is not a merged group of the level
+        impl = "(Some (RErr EInvalid %s))" % coq_path([impl_err["key"]]) if impl_err.get("key") in bad else "None"
     elif impl_err is not None:
-        if impl_err["path"][:-1] == path and impl_err["kind"] in ("ConflictingPluralRuleType", "PluralsAtNormalKey"):
+        if impl_err.get("path", [None])[:-1] == path and impl_err["kind"] in ("ConflictingPluralRuleType", "PluralsAtNormalKey"):
             impl = "(Some (RErr %s %s))" % ("EConflict" if impl_err["kind"] == "ConflictingPluralRuleType" else "ECollide",
                                             coq_path(impl_err["path"]))
         else:
@@ -452,16 +459,20 @@ def run(ctx):
             locale_results.append((pi, loc, start, len(acc), impl_panic, impl_err))
     codes = core.coq_eval(ctx, "c05", PRE, [a for a, _ in acc], "check")
     metas = [m for _, m in acc]
-    bad_spec = [dict(m, code=c) for m, c in zip(metas, codes) if c == 3]
+    bad_spec = [dict(m, code=c) for m, c in zip(metas, codes) if c == 3 and m.get("impl_merge") != "PANIC"]
+    panic_spec = [dict(m, code=c) for m, c in zip(metas, codes) if c == 3 and m.get("impl_merge") == "PANIC"]
     disagree = [dict(m, code=c) for m, c in zip(metas, codes) if c == 2]
     py_mismatch = [m for m in metas if m["py_tag_mismatch"]]
-    unexplained_panics, domain_skips = [], 0
+    unexplained_panics, invalid_key_errors = [], 0
     for (pi, loc, a, b, impl_panic, impl_err) in locale_results:
         if impl_panic:
-            if any(codes[i] == 1 for i in range(a, b)):
-                domain_skips += 1
-            else:
+            if not any(codes[i] == 3 for i in range(a, b)):
                 unexplained_panics.append({"project": pi, "locale": loc, "levels": [metas[i] for i in range(a, b)]})
+        elif impl_err is not None and impl_err["kind"] == "InvalidKey":
+            invalid_key_errors += 1
+            if not any(metas[i]["observed"] and codes[i] in (0, 2) for i in range(a, b)):
+                disagree.append({"project": pi, "locale": loc, "impl_error_not_attributable_to_a_level": impl_err,
+                                 "levels": [metas[i] for i in range(a, b)][:3]})
         elif impl_err is not None and not any(metas[i]["observed"] for i in range(a, b)):
             disagree.append({"project": pi, "locale": loc, "impl_error_not_attributable_to_a_level": impl_err})
     # which algorithm does /repo run? (informational: the pre-fix model is kept as merge_level_old)
@@ -521,6 +532,12 @@ def run(ctx):
                     "spec_C05 (Coq, Parser/Plurals.v) is false on the real merge_plurals output of this level: key set, plural "
                     "node, rule-type conflict / collision error or UnusedForm warnings are not what the property states",
                     "mixed-rule-overwrite")
+    if panic_spec:
+        panic_spec.sort(key=lambda m: (len(m["keys"]), len(m["path"])))
+        report_spec("panic", panic_spec,
+                    "Locale::merge_plurals panicked (unwrap_at merge_plurals_1): the base key of a plural group of this level is "
+                    "not a Rust identifier although its forms are valid keys (`in_one` + `in_other`); the repaired code returns "
+                    "Error::InvalidKey (fixes/C09-plural-base-key-not-identifier.diff)", "plural-base-not-identifier")
     lone = [m for m in cross_fail]
     rt_lone = [f for f in rtres["select_fail"] if f["key"] == "solo"]
     rt_other = [f for f in rtres["select_fail"] if f["key"] != "solo"]
@@ -590,7 +607,7 @@ def run(ctx):
         "disagreements": len(disagree), "spec_failures_on_impl": len(bad_spec),
         "runtime_select_failures": len(rtres["select_fail"]), "t_plural_failures": len(rtres["plural_macro_fail"]),
         "oracle_mismatches": len(rtres["oracle_mismatch"]), "python_vs_rust_classification_mismatches": len(py_mismatch),
-        "skipped_outside_domain_panic_on_non_identifier_base": domain_skips,
+        "panics_blamed_on_non_identifier_base_key": len(panic_spec), "invalid_key_errors_checked": invalid_key_errors,
         "unobserved_levels": sum(1 for m in metas if not m["observed"]),
         "repo_agrees_with_pre_fix_model_on_sample": sum(1 for c in codes_old if c == 0), "pre_fix_sample": len(codes_old),
         "input_distribution": hist, "audit_problems": problems,
